@@ -495,6 +495,27 @@ class Fn:
                 if st["s"] == "assign":
                     yield blk["bb"], i, st
 
+    def const_uses(self, pattern):
+        """Blocks (non-cleanup, reachable) that mention a named constant matching pattern."""
+        rx = re.compile(pattern)
+        out = []
+        reach = self.reachable(0)
+
+        def has(o):
+            if isinstance(o, dict):
+                if o.get("k") == "const" and o.get("path") and rx.search(o["path"]):
+                    return True
+                return any(has(v) for v in o.values())
+            if isinstance(o, list):
+                return any(has(v) for v in o)
+            return False
+        for blk in self.blocks:
+            if blk["cleanup"] or blk["bb"] not in reach:
+                continue
+            if has(blk["st"]) or has(blk["term"]):
+                out.append(blk["bb"])
+        return out
+
     def aggregates(self, adt_pattern, variant=None):
         rx = re.compile(adt_pattern)
         for bb, i, st in self.stmts():
